@@ -115,7 +115,16 @@ func statusDomainClosed(m *mectx) bool {
 			if prm, isP := o.Val.(*ssa.Parameter); isP && prm.Parent() == m.setState {
 				for _, g := range m.p.Funcs {
 					for _, call := range m.callsIn(g, m.setState) {
-						if !isStatusConst(call.Call.Args[1]) {
+						// every value the argument can have where the call is reached: a status constant, or a status read
+						// from an endpoint (inside the domain already)
+						gcs := newCondSpace(g, nil)
+						for _, av := range gcs.ResolveUnder(call.Call.Args[1], gcs.Reach(call)) {
+							if isStatusConst(av) {
+								continue
+							}
+							if f, _, isL := loadedField(av); isL && f == "endpoint.status" {
+								continue
+							}
 							return false
 						}
 					}
@@ -448,7 +457,19 @@ func statusRules(m *mectx, c *Ctx, R func(string) string) {
 			// the scheduling is preceded by setState(ee, recovering)
 			okPrev := false
 			for _, call := range m.callsIn(m.seaInner, m.setState) {
-				if v, isC := constInt(call.Call.Args[1]); isC && v == m.recovering && isEE(call.Call.Args[0]) && dominatesInstr(call, s.Instr) {
+				if !isEE(call.Call.Args[0]) || !mayPrecede(call, s.Instr) {
+					continue
+				}
+				// the state passed where the scheduling is reached (a merged `next` has one concrete value there), on every way to it
+				through := dominatesInstr(call, s.Instr)
+				if !through {
+					through, _ = cs.Implies(cs.Reach(s.Instr), cs.Reach(call))
+				}
+				vals := cs.ResolveUnder(call.Call.Args[1], cs.Reach(s.Instr))
+				if len(vals) != 1 {
+					continue
+				}
+				if v, isC := constInt(vals[0]); through && isC && v == m.recovering {
 					okPrev = true
 				}
 			}
@@ -456,14 +477,17 @@ func statusRules(m *mectx, c *Ctx, R func(string) string) {
 			// ---- C14.cancel: availability report always reaches setState(ee, available)
 			nav := 0
 			for _, call := range m.callsIn(m.seaInner, m.setState) {
-				if v, isC := constInt(call.Call.Args[1]); isC && v == m.available {
-					nav++
-					eq, w2 := cs.EquivStrict(cs.Reach(call), cs.And(A("known"), A("avail")))
-					c.check(eq && isEE(call.Call.Args[0]), R("C14.cancel"), "setEndpointAvailability: available report", p.ipos(call), "setState(ee, available) ⇔ known endpoint ∧ report says available (pending recovery timer stopped and outdated)", "an availability report does not always mark the endpoint available: "+w2)
-				}
-				if v, isC := constInt(call.Call.Args[1]); isC && v == m.unavailable {
-					eq, w2 := cs.EquivStrict(cs.Reach(call), cs.And(A("known"), cs.Not(A("avail")), A("wasAvailable"), A("noRecovery")))
-					c.check(eq, R("C14.cancel"), "setEndpointAvailability: immediate unavailable", p.ipos(call), "setState(ee, unavailable) ⇔ known ∧ unavailable report ∧ was available ∧ no recovery timeout", "immediate unavailability is applied under the wrong condition: "+w2)
+				// (one setState call whose state argument is merged from several branches counts as one call per state)
+				for _, rv := range cs.ResolveWithConds(call.Call.Args[1], cs.Reach(call)) {
+					if v, isC := constInt(rv.V); isC && v == m.available {
+						nav++
+						eq, w2 := cs.EquivStrict(rv.C, cs.And(A("known"), A("avail")))
+						c.check(eq && isEE(call.Call.Args[0]), R("C14.cancel"), "setEndpointAvailability: available report", p.ipos(call), "setState(ee, available) ⇔ known endpoint ∧ report says available (pending recovery timer stopped and outdated)", "an availability report does not always mark the endpoint available: "+w2)
+					}
+					if v, isC := constInt(rv.V); isC && v == m.unavailable {
+						eq, w2 := cs.EquivStrict(rv.C, cs.And(A("known"), cs.Not(A("avail")), A("wasAvailable"), A("noRecovery")))
+						c.check(eq, R("C14.cancel"), "setEndpointAvailability: immediate unavailable", p.ipos(call), "setState(ee, unavailable) ⇔ known ∧ unavailable report ∧ was available ∧ no recovery timeout", "immediate unavailability is applied under the wrong condition: "+w2)
+					}
 				}
 			}
 			c.floor(R("C14.cancel"), nav, 1)
